@@ -65,6 +65,83 @@ def _flow(fa, expr, at=None, _seen=None, _out=None):
     return out
 
 
+def _backward_slice(fa, seeds, stmts=(), control_dependence=True):
+    """Everything the values of `seeds` [(expression, CFG node)] can depend on inside the function, as {id(node): node}:
+    their sub-expressions; for every local read, the values assigned by the definitions that reach the read AND what is put
+    into that local in place (method calls on it, stores through it); the tests of the branches and the iterables of the
+    loops around those statements (control dependence; also around `stmts`); and, for calls of functions nested in this one,
+    their bodies - what they read from the enclosing scope is followed from the place where they are defined."""
+    out, seen_defs, seen_ctl, seen_fn = {}, set(), set(), set()
+    work = list(seeds)
+    # in-place changes of a local: name -> [(statement, [expressions put into it])]
+    mutations = {}
+    for st in fa.stmts():
+        for x in A.walk_local(st) if not isinstance(st, (ast.If, ast.While, ast.For, ast.AsyncFor, ast.Try, ast.With, ast.AsyncWith)) else []:
+            if isinstance(x, ast.Call) and isinstance(x.func, ast.Attribute) and isinstance(x.func.value, ast.Name):
+                mutations.setdefault(x.func.value.id, []).append((st, list(x.args) + [k.value for k in x.keywords]))
+            if isinstance(x, (ast.Subscript, ast.Attribute)) and isinstance(x.ctx, ast.Store) and isinstance(st, (ast.Assign, ast.AugAssign, ast.AnnAssign)) and st.value is not None:
+                r_ = x
+                while isinstance(r_, (ast.Subscript, ast.Attribute)):
+                    r_ = r_.value
+                if isinstance(r_, ast.Name) and r_.id != "self":
+                    mutations.setdefault(r_.id, []).append((st, [st.value] + ([x.slice] if isinstance(x, ast.Subscript) else [])))
+
+    def control(st):
+        if not control_dependence:
+            return
+        cur = st
+        while cur is not None and cur is not fa.node:
+            par = fa.pm.get(cur)
+            if isinstance(par, (ast.If, ast.While)) and id(par) not in seen_ctl and cur is not par.test:
+                seen_ctl.add(id(par))
+                for i in fa.nodes(par.test)[:1]:
+                    work.append((par.test, i))
+            elif isinstance(par, (ast.For, ast.AsyncFor)) and id(par) not in seen_ctl and cur is not par.iter:
+                seen_ctl.add(id(par))
+                for i in fa.nodes(par)[:1]:
+                    work.append((par.iter, i))
+            cur = par
+
+    for st in stmts:
+        control(st)
+    while work:
+        (e, at) = work.pop()
+        if e is None:
+            continue
+        for n in ast.walk(e):
+            out[id(n)] = n
+            if isinstance(n, ast.Name) and isinstance(n.ctx, ast.Load) and at is not None:
+                for d in fa.df.reaching(at, n.id):
+                    if (d.node, d.name) in seen_defs:
+                        continue
+                    seen_defs.add((d.node, d.name))
+                    if d.value is not None:
+                        work.append((d.value, d.node))
+                    if d.stmt is not None:
+                        control(d.stmt)
+                for (st, exprs) in mutations.get(n.id, []) if fa.df.is_local(n.id) else []:
+                    if ("mut", id(st), n.id) in seen_defs or not fa.nodes(st):
+                        continue
+                    seen_defs.add(("mut", id(st), n.id))
+                    for x in exprs:
+                        work.append((x, fa.nodes(st)[0]))
+                    control(st)
+            if isinstance(n, ast.Call) and isinstance(n.func, ast.Name) and n.func.id in fa.fi.nested and n.func.id not in seen_fn:
+                seen_fn.add(n.func.id)
+                sub = fa.fi.nested[n.func.id].node
+                a_ = sub.args
+                own = {x.arg for x in a_.posonlyargs + a_.args + a_.kwonlyargs} | ({a_.vararg.arg} if a_.vararg else set()) | ({a_.kwarg.arg} if a_.kwarg else set())
+                own |= {x.id for b_ in sub.body for x in ast.walk(b_) if isinstance(x, ast.Name) and isinstance(x.ctx, ast.Store)}
+                for b_ in sub.body:
+                    for x in ast.walk(b_):
+                        out[id(x)] = x
+                        if isinstance(x, ast.Name) and isinstance(x.ctx, ast.Load) and x.id not in own and fa.df.is_local(x.id):
+                            for i in fa.nodes(sub)[:1]:
+                                work.append((ast.copy_location(ast.Name(id=x.id, ctx=ast.Load()), x), i))
+                control(sub)
+    return out
+
+
 def _alternatives(fa, expr, at, depth=6):
     """The expressions `expr` (evaluated at CFG node `at`) may stand for, as (expr, node) pairs: a local name is
     followed to every definition that reaches it (several branches assigning it, a loop variable ranging over a
@@ -1420,6 +1497,14 @@ def check_enforcement(ck, R):
                 if isinstance(x, ast.Compare) and len(x.ops) == 1 and isinstance(x.ops[0], (ast.In, ast.NotIn)) \
                         and v.xnorm(x.left, n.id) == "self.fn_reference().qualified_name":
                     dv |= v.df.deps(x.comparators[0], n.id)
+                    # ... and what is put into that set in place (a set filled by a loop, .update(...), |=)
+                    for y in _backward_slice(v, [(x.comparators[0], n.id)], control_dependence=False).values():
+                        if isinstance(y, ast.Call) and A.call_attr(y):
+                            dv.add("call:" + A.call_attr(y))
+                            if A.call_attr(y) == "getattr" and len(y.args) >= 2 and A.const_str(y.args[1]):
+                                dv.add("getattr:" + A.const_str(y.args[1]))
+                        elif isinstance(y, ast.Attribute) and isinstance(y.ctx, ast.Load) and A.dotted(y):
+                            dv.add("attr:" + A.dotted(y))
         okv = "call:transitive_memento_fn_dependencies" in dv and "call:dependencies" in dv and \
             any(d.endswith("memento_fn") and d.startswith(("attr:", "getattr:")) for d in dv)
         # what else may flow into the valid set: function references found among the caller's own arguments
@@ -1761,6 +1846,56 @@ def check_determinism_taint(ck, R):
               "the symbol is appended to the rule key only for some non-unique qualified names: two closures made by one factory (or two lambdas) "
               "used by one function still share a key, so the version depends on the hash seed", f3.where())
     ck.need(sinks >= 4, "determinism taint: only %d digest sinks found" % sinks)
+
+
+# what a module / the process looks like at one moment (as opposed to what a function IS)
+_MOMENT_ATTRS = {"__globals__", "__dict__", "f_globals", "f_locals", "f_back", "f_builtins"}
+_MOMENT_CALLS = {"globals", "vars", "locals", "dir", "getmembers", "get_registered_functions", "_getframe", "currentframe", "stack"}
+
+
+def _moment_reads(nodes):
+    """The places among `nodes` that look at the state of a module / of the process at the moment they run."""
+    out = []
+    for n in nodes:
+        if isinstance(n, ast.Attribute) and isinstance(n.ctx, ast.Load) and (n.attr in _MOMENT_ATTRS or (n.attr == "modules" and A.norm(n.value) == "sys")):
+            out.append(n)
+        elif isinstance(n, ast.Call):
+            nm = A.call_attr(n)
+            if nm in ("getattr", "hasattr") and len(n.args) >= 2 and A.const_str(n.args[1]) in _MOMENT_ATTRS:
+                out.append(n)
+            elif nm in _MOMENT_CALLS:
+                out.append(n)
+    return sorted(out, key=lambda n: (getattr(n, "lineno", 0), getattr(n, "col_offset", 0)))
+
+
+def check_definition_order_independence(ck, R):
+    """What is recorded about a function at the moment it is DEFINED - the names its source refers to, its required names, its
+    code hash - enters its version and must be a function of the function alone.  At that moment the module is half
+    executed: its globals hold what stands above the definition and nothing of what stands below, other modules are
+    imported or not.  Anything read from there (a `__globals__` table, `globals()`, `vars(module)`, `sys.modules`, the
+    registry of functions) makes the same program text yield different versions for different definition / import orders."""
+    ck.rule(R, "definition-order independence: the names, required names and code hash recorded when a function is defined are computed "
+               "from the function itself, never from what its module's globals (or the process) hold at that moment", 3)
+    sinks = []   # (FA, label, [(expr, node)], [stmts])
+    ini = FA(ck, MF + ".__init__")
+    for fld in ("detected_dependencies", "required_dependencies", "code_hash"):
+        asg = [s_ for s_ in ini.stmts((ast.Assign, ast.AnnAssign, ast.AugAssign)) if ini.nodes(s_) and getattr(s_, "value", None) is not None
+               and any(A.dotted(t) == "self." + fld for t in (s_.targets if isinstance(s_, ast.Assign) else [s_.target]))]
+        ck.need(bool(asg), "MementoFunction.__init__: no assignment of self.%s" % fld)
+        sinks.append((ini, "self." + fld, [(s_.value, ini.nodes(s_)[0]) for s_ in asg], asg))
+    for q in (CH + ".list_dotted_names", CH + ".fn_code_hash"):
+        fx = FA(ck, q)
+        rets = [r for r in fx.returns() if r.value is not None and fx.nodes(r)]
+        sinks.append((fx, "the value returned by %s" % fx.fi.name, [(r.value, fx.nodes(r)[0]) for r in rets], rets))
+    for (fx, label, seeds, stmts_) in sinks:
+        reads = _moment_reads(_backward_slice(fx, seeds, stmts_).values())
+        ok = not reads
+        ck.ob(R, fx.key(None, "definition-order:" + label.split(" ")[-1].replace("self.", "")), ok,
+              "%s depends on the function alone" % label if ok else
+              "%s depends on `%s`, i.e. on what a module's globals (or the process) hold at the moment the function is DEFINED: a module is half "
+              "executed then - names defined below the function are not there yet - so the same program gets another version (and other dependencies) "
+              "when its definitions are reordered or its modules imported in another order, and a second process re-executes what the first stored"
+              % (label, A.short(reads[0], 60)), fx.where(reads[0]) if reads else fx.where())
 
 
 def check_ordered_iteration(ck, R):
